@@ -335,6 +335,14 @@ example : (match buildA supDoc false supAdd with
           | none => false)
     | .error _ => false) = true := by decide
 
+/-- non-vacuity of `supplied_overrides`: the definition `enum E { Z }` of `supDoc` is overridden by the supplied `E` -/
+example : supE ∈ ((DeclaredWith supDoc supAdd).get supDeclares).types :=
+  supplied_overrides supDoc supAdd _ supDoc_valid (by decide) { kind := .enum, name := "E", values := [{ name := "Z" }] } (by simp [supDoc, typeDefs]) supE rfl
+
+/-- non-vacuity of `registered_only_if_reached` (same premises, applied to the overriding `E`) -/
+example := registered_only_if_reached supDoc supAdd _ supDoc_valid (by decide) supE
+  (supplied_overrides supDoc supAdd _ supDoc_valid (by decide) { kind := .enum, name := "E", values := [{ name := "Z" }] } (by simp [supDoc, typeDefs]) supE rfl)
+
 /-! ### finding C11/A1: with extension blocks the statement is false today -/
 
 /-- `type Query { q: Int }  extend type Query { e: E }  extend enum E { B }` with `additional_types=[E {A}]` -/
